@@ -9,6 +9,9 @@ pub enum MetaKind {
     Generic,
     A,
     B,
+    /// `{version: String}` that ignores every other key (no deny_unknown_fields): what is on
+    /// disk may be wider than what the type carries
+    Loose,
 }
 
 #[derive(Clone, Debug, PartialEq, Serialize, Deserialize)]
@@ -18,6 +21,7 @@ pub enum MetaVal {
     Table(toml::Table),
     A { version: String },
     B { version: String, sha: String },
+    Loose { version: String },
 }
 
 impl MetaVal {
@@ -26,7 +30,7 @@ impl MetaVal {
         match self {
             MetaVal::Absent => None,
             MetaVal::Table(t) => Some(t.clone()),
-            MetaVal::A { version } => {
+            MetaVal::A { version } | MetaVal::Loose { version } => {
                 let mut t = toml::Table::new();
                 t.insert("version".into(), toml::Value::String(version.clone()));
                 Some(t)
@@ -45,6 +49,7 @@ impl MetaVal {
             MetaVal::Absent | MetaVal::Table(_) => MetaKind::Generic,
             MetaVal::A { .. } => MetaKind::A,
             MetaVal::B { .. } => MetaKind::B,
+            MetaVal::Loose { .. } => MetaKind::Loose,
         }
     }
 }
@@ -59,6 +64,21 @@ pub fn valid(kind: MetaKind, md: &Option<toml::Table>) -> bool {
         (_, None) => false,
         (MetaKind::A, Some(t)) => only_strings(t, &["version"]),
         (MetaKind::B, Some(t)) => only_strings(t, &["version", "sha"]),
+        (MetaKind::Loose, Some(t)) => matches!(t.get("version"), Some(toml::Value::String(_))),
+    }
+}
+
+/// What a callback typed with `kind` can see of the metadata on disk.
+pub fn project(kind: MetaKind, md: &Option<toml::Table>) -> Option<toml::Table> {
+    match (kind, md) {
+        (MetaKind::Loose, Some(t)) => {
+            let mut out = toml::Table::new();
+            if let Some(v) = t.get("version") {
+                out.insert("version".into(), v.clone());
+            }
+            Some(out)
+        }
+        _ => md.clone(),
     }
 }
 
@@ -73,6 +93,7 @@ pub fn typed(kind: MetaKind, md: &Option<toml::Table>) -> MetaVal {
             version: s(t, "version"),
             sha: s(t, "sha"),
         },
+        (MetaKind::Loose, Some(t)) => MetaVal::Loose { version: s(t, "version") },
         _ => MetaVal::Absent,
     }
 }
